@@ -16,7 +16,9 @@ RULE = ("random instruction-level programs over the whole classical/array/alloca
         "instruction classes: all four banks, arbitrary jump targets in [0, len], arrays of length 0..8, negative "
         "operands, moduli around 0/1, undefined registers and entries, double alloc / free of unallocated / index == "
         "len, wait_* on entries and slices; histories of 1-5 subroutines against the same application state and two "
-        "applications side by side. Non-trivial = the reference run executed >= 8 instructions in some subroutine of "
+        "applications side by side."
+        ' Between returns the host copy of every returned array (all applications, after every subroutine, fault or not) must equal the ret_arr snapshot or the returned list itself. '
+        "Non-trivial = the reference run executed >= 8 instructions in some subroutine of "
         "the history and the history was judged to its end; distinct = distinct history description. Histories that "
         "reach a situation outside the property's fault list (branch on an undefined register, negative "
         "targets/lengths/indices/addresses, malformed slices) or the step bound are discarded from that point and counted.")
